@@ -172,6 +172,8 @@ UNITS['c13'] = {
 UNITS['c13l'] = {
     'template': 'contracts/c13l.vrs',
     'mutants': [
+        ('parse_drops_the_lexical_errors', 'let mut errs = lexical_errors(lex_errs);', 'let mut errs: Vec<Error> = Vec::new();', ['C13.parse']),
+        ('parse_swallows_a_parser_failure', 'errs.push(Error::from(err)); (None, errs)', '(None, errs)', ['C13.parse']),
         ('lsp_diagnostics_drops_errors_of_already_seen_documents', 'diags.push_diag(loc, diag);', 'if false { diags.push_diag(loc, diag); }', ['C13.lsp.diagnostics']),
         ('cli_ignores_syntax_errors_when_a_tree_exists', 'if let Some(err) = errs.pop() {', 'if let (Some(err), true) = (errs.pop(), tree.is_none()) {', ['C13.cli.parse']),
         ('lsp_eval_swallows_the_error', 'self.log_compiler_error(&loc, &err); Err(anyhow_msg("evaluation failed"))', 'Err(anyhow_msg("evaluation failed"))', ['C13.lsp.eval']),
@@ -492,7 +494,7 @@ PROPS = {
         'not_decided': ['which error kind is reported when several apply', 'Err-path: that the error names the offending import (E is an opaque From<Error>)'],
     },
     'C04': {
-        'units': ['lex', 'c07', 'c16', 'c08', 'c01'],
+        'units': ['lex', 'c07', 'c16', 'c08', 'c01', 'c13l'],
         'kani': [dict(_KANI_STATUS, obligation='C04.status.try_from.total')] + [dict(h, obligation=h['obligation'].replace('C11.', 'C04.')) for h in _KANI_CONV],
         'level': 'other',
         'obligation_prefixes': ['C04.', 'C07.occurs.terminates', 'C07.occurs.nopanic', 'C07.uf.terminates', 'C07.uf.nopanic', 'C07.unify.nopanic', 'C07.unify.keeps_forest', 'C07.unify.occurs_before_bind',
@@ -638,6 +640,10 @@ PROPS = {
         'units': ['c14', 'c13', 'c13l'],
         'level': 'other',
         'obligation_prefixes': ['C13.'],
+        'scans': [
+            {'name': 'P13.parse_program', 'kind': 'pinned_text', 'file': 'oal-syntax/src/parser.rs', 'path': [('fn', 'parse_program')],
+             'why': 'the real oal_syntax::parse (unit c13l) is verified under the ASSUMED contract that a successful parse_program yields a node: its last line is `Ok((s, c.compose_node(SyntaxKind::Program, ns)))`, and compose_node returns a node (proved, unit c11t)'},
+        ],
         'technique': 'Verus contracts on the real CLI entry point (oal-cli.rs `main`, `run`, every write attempt recorded in a ghost log) and on the real playground entry point (oal-wasm `process`, `compile`)',
         'level_text': 'Deductive proof (Verus/Z3) over the real bodies of `run` and `main` (oal-cli.rs), for all configurations and all outcomes of the phases they call: '
                       '`run` Ok ==> exactly one write was attempted, it succeeded, and it wrote a complete serialised document to the configured target; '
